@@ -323,8 +323,8 @@ class ProjectHistory:
         os.chdir(self.tmp)
         self.folder = self.tmp / "proj"
         self.project = None
-        self.counts: dict = {}  # result name -> number of runs stored
-        self.order: list = []  # run folder names in creation order
+        self.counts: dict = {}  # result name -> number of runs stored so far (= next run number)
+        self.order: list = []  # existing run folder names in creation order
         self.hashes: dict = {}  # run folder name -> {file: sha256}
         self.data_seed: dict = {}  # dataset name -> seed of the stored data
         self.models: set = set()
@@ -341,7 +341,11 @@ class ProjectHistory:
         return self.folder / "results"
 
     def expected_runs(self) -> list[str]:
-        return sorted(f"{n}_run_{k:04}" for n, c in self.counts.items() for k in range(c))
+        return sorted(self.order)
+
+    def alive(self, name: str) -> list[int]:
+        """Run numbers of exactly ``name`` that exist (old runs may have been deleted by the user)."""
+        return [k for k in range(self.counts.get(name, 0)) if f"{name}_run_{k:04}" in self.hashes]
 
     def listing(self) -> list[str]:
         return sorted(p.name for p in self.results_dir.iterdir()) if self.results_dir.exists() else []
@@ -412,7 +416,7 @@ class ProjectHistory:
         if self.focus == "runs":
             for run in self.order:  # every stored run is addressable by its exact name
                 base, k = run.rsplit("_run_", 1)
-                self._lookup({"fn": "get_result_path", "name": base, "spec": int(k)})
+                self._lookup({"fn": "get_result_path", "name": base, "spec": 0, "run": int(k)})
         elif self.focus == "latest":
             for n in RESULT_NAMES:
                 for fn in ("get_result_path", "get_result_path_latest", "get_latest_result_path"):
@@ -421,10 +425,24 @@ class ProjectHistory:
                 self._lookup({"fn": fn, "name": name, "spec": None})
         else:
             for n in RESULT_NAMES:
-                c = self.counts.get(n, 0)
+                c = len(self.alive(n))
                 for k in sorted({0, c - 1}) if c else ():
                     self._lookup({"fn": "get_latest_result_path", "name": n, "spec": k})
             self._lookup({"fn": "load_latest_result", "name": name, "spec": 0})
+
+    def _delete_old_run(self, step):
+        """The user removes an old (never the latest) run folder of a name: numbering must go on from the maximum."""
+        name = step["name"]
+        alive = self.alive(name)
+        if len(alive) < 2:
+            self.tags.add("delete:nothing-to-delete")
+            return
+        k = alive[step["index"] % (len(alive) - 1)]
+        run = f"{name}_run_{k:04}"
+        shutil.rmtree(self.results_dir / run)
+        self.order.remove(run)
+        del self.hashes[run]
+        self.tags.add("delete:old-run-removed")
 
     def _reopen(self, step):
         from glotaran.project import Project
@@ -546,7 +564,8 @@ class ProjectHistory:
             if count == 0:
                 self.tags.add("lookup:no-run-skipped")
                 return
-            k = spec % count
+            alive = self.alive(name)
+            k = step["run"] if "run" in step else alive[spec % len(alive)]
             arg = f"{name}_run_{k:04}"
         else:
             k, arg = None, name
@@ -637,7 +656,7 @@ def _machine(focus: str):
             self._step({"op": "optimize", "name": name})
 
         @precondition(lambda self: self.h is not None)
-        @rule(name=st.sampled_from(RESULT_NAMES))
+        @rule(name=st.sampled_from(["m", "m_run_x", "m_run_1"]))
         def optimize_more(self, name):
             self._step({"op": "optimize", "name": name})
 
@@ -654,6 +673,11 @@ def _machine(focus: str):
                 self._step({"op": "lookup", "fn": lk[0], "name": name, "spec": spec if lk[1] else None})
 
         if focus == "runs":
+
+            @precondition(lambda self: self.h is not None and len(self.h.order) >= 2)
+            @rule(name=st.sampled_from(RESULT_NAMES), index=st.integers(0, 5))
+            def delete_old_run(self, name, index):
+                self._step({"op": "delete_old_run", "name": name, "index": index})
 
             @precondition(lambda self: self.h is not None)
             @rule(how=st.sampled_from(["open_folder", "open_file", "create_refused", "create_overwrite"]))
@@ -740,13 +764,13 @@ PROPERTY = Property(
         Sub("matrix", prop=prop_matrix, enumerate=matrix_cases, exhaustive=True,
             doc="every glotaran.io.save_* x every registered format (+unknown, +failing harness plugin) x 4 target states x allow_overwrite x explicit/inferred"),
         Sub("project_runs", machine=lambda: _machine("runs"), replay_steps=_replay("runs"),
-            budget={"quick": 64, "thorough": 1600}, steps={"quick": 10, "thorough": 25},
+            budget={"quick": 128, "thorough": 1600}, steps={"quick": 12, "thorough": 25},
             doc="run numbering, storage, earlier runs unchanged and loadable, flag handling of import_data / generate_* / Project.create"),
         Sub("project_latest", machine=lambda: _machine("latest"), replay_steps=_replay("latest"),
-            budget={"quick": 48, "thorough": 800}, steps={"quick": 10, "thorough": 25},
+            budget={"quick": 96, "thorough": 800}, steps={"quick": 12, "thorough": 25},
             doc="lookups by bare result name resolve to the last run of exactly that name"),
         Sub("project_latest_spec", machine=lambda: _machine("latest_spec"), replay_steps=_replay("latest_spec"),
-            budget={"quick": 48, "thorough": 800}, steps={"quick": 10, "thorough": 25},
+            budget={"quick": 96, "thorough": 800}, steps={"quick": 12, "thorough": 25},
             doc="latest lookups whose argument carries a run specifier resolve to the last run of that name"),
     ],
     assumptions=[
